@@ -402,6 +402,68 @@ def r12_6(ctx):
                 'an object value is emitted as a constant')
 
 
+def r12_7(ctx):
+    """the "at least one string must match" pre-filter is raised under the same
+    condition by every quantified-set action"""
+    import re
+    from .C14 import canon
+    from .. import bison
+    f = yyparse(ctx)
+    groups = action_groups(ctx, f)
+    text = ctx.prog.text('libyara/grammar.y')
+    actions = bison.parse(text)[0] if text else []
+    sites = []
+    for labels, stmts in groups:
+        nodes = list(cu.group_nodes(f, stmts))
+        lines = [x.get('l') for x in nodes if x.get('l') and f.nfile(x).endswith('grammar.y')]
+        act = None
+        for a in actions:
+            if lines and a.start_line <= min(lines) <= a.end_line:
+                act = a
+        for n in nodes:
+            if n['k'] != 'if':
+                continue
+            ks = f.kids(n)
+            if len(ks) < 3:
+                continue
+
+            def stores(arm):
+                out = set()
+                for x in f.walk(arm):
+                    if x['k'] == 'bin' and x['op'] == '=':
+                        l = cu.strip_casts(f, f.kid(x, 0))
+                        if l is not None and l['k'] == 'member' and l['fld'] == 'count' and \
+                                'required_strings' in f.show(l):
+                            out.add(cu.const_of(cu.strip_casts(f, f.kid(x, 1))))
+                return out
+            if stores(ks[1]) == set([1]) and stores(ks[2]) == set([0]):
+                c = canon(f, ks[0])
+                slots = sorted(set(re.findall(r'yyvsp\[(-?\d+)\]', c)))
+                if len(slots) != 1:
+                    continue
+                # only the family quantified by a for_expression ($j = yyvsp[j - n])
+                if act is not None:
+                    j = int(slots[0]) + act.nsyms_before
+                    sym = act.symbols[j - 1] if 0 < j <= len(act.symbols) else None
+                    if sym != 'for_expression':
+                        continue
+                norm = re.sub(r'yyvsp\[-?\d+\]', 'Q', c)
+                sites.append((n, norm))
+    ctx.require(len(sites) >= 3 or ctx.fixture, 'only %d required-strings guards found' % len(sites))
+    counts = {}
+    for n, norm in sites:
+        counts[norm] = counts.get(norm, 0) + 1
+    major = max(counts, key=lambda k: counts[k]) if counts else None
+    for i, (n, norm) in enumerate(sites):
+        ok = norm == major
+        ctx.ob('R12.7', 'required-strings-guard#%d:agrees-with-siblings' % i, ok, f.loc(n),
+               'raised under the same condition as the other %d quantified-set actions' % (len(sites) - 1)
+               if ok else
+               'this action raises required_strings under %s while its %d siblings use %s: a rule is '
+               'skipped (or evaluated) without its strings on a quantifier the siblings treat '
+               'differently' % (norm[:120], counts[major], major[:160]))
+
+
 def _fx(fn):
     return {'src': 'C12/fold.c', 'run': fn}
 
@@ -424,5 +486,7 @@ def run(ctx):
     ctx.floor('R12.3', 2)
     r12_6(ctx)
     ctx.floor('R12.6', 5)
+    r12_7(ctx)
+    ctx.floor('R12.7', 3)
     from . import C12_flags
     C12_flags.run(ctx)
